@@ -450,6 +450,53 @@ def _task_trees(task):
     return t
 
 
+def _task_threads(task):
+    """Kernel E-thread: ONE criterion object evaluated by two threads at the same time, each on its own packet, under EVERY interleaving of
+    their packet accesses (item reads and membership tests are the yield points): each evaluation returns what it returns alone."""
+    from space_packet_parser import common
+    from space_packet_parser.xtce import comparisons
+    from mc.threadexplore import explore, yielding_packet_class
+    YP = yielding_packet_class()
+    t = Tally()
+    with case_alarm(1500):
+        for tree in task["trees"]:
+            n = _count_leaves(tree)
+            for mode in ("value", "param"):
+                spec = tree_to_spec(tree, iter(range(n)), mode)
+                be = comparisons.BooleanExpression(_lib_expr(comparisons, spec))
+                lk = comparisons.DiscreteLookup([comparisons.Comparison("1", "P0"), comparisons.Comparison("0", f"P{n - 1}", operator=">=")], 16.0)
+                # pairs of assignments: all-true with all-false, and each single flip against its complement
+                pairs = [((1,) * n, (0,) * n)] + [(tuple(1 if j == i else 0 for j in range(n)), tuple(0 if j == i else 1 for j in range(n))) for i in range(min(n, 2))]
+                for obj_name, obj in (("BooleanExpression", be), ("DiscreteLookup", lk)):
+                    for va, vb in pairs:
+                        def mk_pkt(vals, point=None):
+                            p = YP(**{f"P{i}": common.IntParameter(v) for i, v in enumerate(vals)}, ONE=common.FloatParameter(1.0))
+                            if point is not None:
+                                p.__dict__["_pt"] = point
+                            return p
+                        want = tuple(("ok", obj.evaluate(mk_pkt(v))) for v in (va, vb))
+
+                        def make_bodies():
+                            return [lambda point, v=v: obj.evaluate(mk_pkt(v, point)) for v in (va, vb)]
+
+                        def check(results, choices):
+                            t.evals += 1
+                            t.traces += 1
+                            t.transitions += len(choices)
+                            if tuple(results) != want:
+                                t.violation({"kind": "concurrent-evaluation-differs", "form": obj_name},
+                                            {"form": "threads:" + obj_name, "tree": tree, "leaf_mode": mode, "assignments": [list(va), list(vb)], "schedule": list(choices)},
+                                            expected=list(want), observed=list(results),
+                                            note="two threads evaluating one criterion object on different packets: a result differs from the evaluation alone")
+                        st = explore(make_bodies, check, bound=None if n <= 3 else 3, max_execs=20000)
+                        t.states += st["executions"]
+                        if st["capped"]:
+                            t.caps.append(f"thread interleavings capped at 20000 for a tree of {n} leaves")
+                        t.outcomes[f"threads:{obj_name}"] += st["executions"]
+            t.nontrivial += 1
+    return t
+
+
 def _count_leaves(t):
     return t[1] + sum(_count_leaves(k) for k in t[2])
 
@@ -711,6 +758,8 @@ def run(ctx):
             trees += gen_trees(kind, n, maxd)
     tally.merge(fan_out(_task_trees, [{"trees": ch} for ch in chunked(trees, 32)], jobs=ctx.jobs, seed=ctx.seed))
     tally.merge(_task_lookup({}))
+    ttrees = [tr for tr in trees if _count_leaves(tr) <= (3 if ctx.quick else 4)]
+    tally.merge(fan_out(_task_threads, [{"trees": ch} for ch in chunked(ttrees, 16)], jobs=ctx.jobs, seed=ctx.seed))
     tally.merge(fan_out(_task_reuse, [{"ops": [op], "depth": 2 if ctx.quick else 3} for op in CANON_OPS + ["leq", "&gt;"]], jobs=ctx.jobs, seed=ctx.seed))
     crits = consumer_criteria(ctx.tier)
     ctasks = []
@@ -728,6 +777,7 @@ def run(ctx):
                   f"+ own-raw-value form; Condition: 16 spellings x (parameter-vs-parameter over 10 numeric values incl. int-vs-float in both orders "
                   f"and bools, 3 strings; 4 selector combinations; 10 operands around 2^53, 2^60, 2^64 as int and as float) + parameter-vs-literal; BooleanExpression: all {len(trees)} AND/OR trees with <= {maxl} "
                   f"leaves and depth <= {maxd} x 2 leaf forms x all 2^leaves assignments, plus (<= 4 leaves) every binding of the leaves to 2 repeated parameters with alternating selectors x all 16 value/raw assignments; DiscreteLookup: 5 criteria lists x 4 values x 9 assignments; "
+                  f"threads (kernel E-thread): one BooleanExpression / DiscreteLookup object evaluated by two real threads at once on different packets under EVERY interleaving of their packet accesses (trees of <= {3 if ctx.quick else 4} leaves; preemption bound 3 above 3 leaves); "
                   f"reuse: one Comparison/Condition/BooleanExpression/DiscreteLookup object evaluated over every history of {2 if ctx.quick else 3} operands of mixed kinds (10 operands); "
                   f"consumer level: {len(crits)} restriction criteria (every form) x {len(consumer_packets())} packets, loaded from XML and built from objects"),
         "rule": ("one evaluation = one evaluate() call or one packet routed through a criterion; distinct non-trivial = distinct truth-table cells "
